@@ -35,7 +35,7 @@ CHECKS = {
              "itself: the SubqueryMarker branch of the SQL compiler (needed-column selection, visible columns first, name de-duplication, outer re-selection) "
              "leaves the exported frame unchanged for every accumulated SELECT (subquery_transparent, marker_transparent, refines_through_marker) under the "
              "stated readiness conditions (visible columns needed, defined, distinctly named; aggregate status independent of hidden columns); verbs above the "
-             "marker are covered by the correspondence, not by a theorem.",
+             "marker are covered by the correspondence, not by a theorem. Corollaries: a row-level pipeline (frag_marker_refines), a join of two sources with row-level verbs (jfrag_marker_refines), an ordered pipeline with a final slice_head (ofrag_marker_refines) and a grouped summarize (grouped_marker_refines) below the marker refine the reference semantics whenever the caller's needed-columns counter holds the visible columns (frag_needed_mono / wrap_needed_mono / join_needed_mono prove that compilation never loses them).",
         design_ref="DESIGN.md section 5, C08",
         note=NOTE_COMMON + "Modelled, not verified: SQLite execution (oracle only). Known findings are matched by trigger predicates (harness/triggers.py).",
     ),
@@ -48,7 +48,7 @@ CHECKS = {
              "Kleene tables, De Morgan, SQL xor-as-!=, null propagation of arithmetic/comparisons, is_in = or-chain (False for the empty list), coalesce, "
              "fill_null, clip. The model Ops.ew is run against Polars and SQLite on a boundary grid for every modelled overload as column-column, "
              "column-literal and nested expressions. Partial: float-valued results and transcendental/round/pow/date operators are compared or listed "
-             "as not covered, not proved.",
+             "as not covered, not proved. The grid also runs every binary operator with the literal on the left (the reflected operators); element-wise float results of the two backends are compared with a relative 1e-12 and no absolute floor.",
         design_ref="DESIGN.md section 5, C03",
         note=NOTE_COMMON + "Engine primitives (Polars floor division and modulo, SQLite scalar MAX/MIN/COALESCE/IN) are modelled definitions validated by the grid only.",
     ),
@@ -99,7 +99,7 @@ CHECKS = {
              "exactly under the shape conditions the code checks). The oracle runs generated programs on Polars- and SQLite-backed tables and compares "
              "Polars(lazy) collected, Pandas, DictOfLists, ListOfDicts, Dict, Scalar, ColExpr.export (single columns and an expression mixing an "
              "ancestor's and the final table's reference) and the re-imported frame with export(Polars()). Thin on purpose: the repo's part is the "
-             "dispatch and the expression-to-table synthesis; Polars' / pandas' converters are modelled.",
+             "dispatch and the expression-to-table synthesis; Polars' / pandas' converters are modelled. long_tables exports columns that are NULL for their first 100 - 250 rows (beyond any schema-inference window) from SQLite and compares with the Polars backend.",
         design_ref="DESIGN.md section 5, C20",
         note=NOTE_COMMON + "Pandas target exists only for Polars-backed tables (finding D56).",
     ),
@@ -245,7 +245,7 @@ CHECKS = {
              "sql_refines_spec_union (for two pipelines of the row-level fragment with distinct visible names on each side and the same name set, every database "
              "and needed_cols state, the compiler succeeds and SELECT ... FROM (left UNION [ALL] right re-selected by name) evaluates to exactly the frame of the "
              "reference semantics, with and without distinct). Oracle: frames of Polars / SQLite vs Spec.run on programs with permuted column orders, hidden columns, duplicates within "
-             "and across sides, nullable columns, empty sides, chained unions and verbs before / after.",
+             "and across sides, nullable columns, empty sides, chained unions and verbs before / after. The refusals of union (grouped operand, different visible column names including a one-sided superset) are a directed stream of this check (refusal_stream).",
         design_ref="DESIGN.md section 5, C07",
         note=NOTE_COMMON + "D23 and D73 were repaired in /repo. Known findings by trigger: D26, D32, D38, D40, D45.",
     ),
@@ -259,7 +259,7 @@ CHECKS = {
              "grouping state vs partition_by with and without the arrange verb, drop vs select, rename and inverse, slice chains of length 2-3, inner join vs "
              "cross join + filter, x.map vs when/then, is_in vs or-chain, union with swapped operands) instantiated on generated base pipelines and data; the two "
              "sides are exported on Polars and SQLite and must agree per backend, and every export is compared with the Lean Spec. Partial: x.map and union swap "
-             "are established on the real code and by Spec comparison, not by a dedicated theorem.",
+             "are established on the real code and by Spec comparison, not by a dedicated theorem. docs_stream enumerates the documented group_by / arrange / mutate / ungroup notation against partition_by= / arrange= for every marker combination on a nullable key, with and without a grouping, on Polars.",
         design_ref="DESIGN.md section 5, C15",
         note=NOTE_COMMON + "Known finding D9: on SQL the arrange verb is not used as the order of a window function without arrange= (documented notation).",
     ),
